@@ -459,6 +459,20 @@ def cfg_small_shapes():
                         else:
                             kids = [{"k": "Any", "id": "W", "c": [g, L("item")]}]
                         yield {"k": "Stingy", "id": "conf", "c": kids}
+                    if ms is member_sets[0] or ms is member_sets[1] or ms is member_sets[7]:
+                        # ... and below every OTHER connective (each class reads / writes its children by its own code)
+                        for wrap in ("All", "AtLeast", "AtMost", "Xor", "XNor", "Not", "condition"):
+                            if wrap == "Not":
+                                w = {"k": "Not", "c": [g]}
+                            elif wrap == "condition":
+                                w = {"k": "Imply", "id": "R", "c": [g, L("item")]}
+                            else:
+                                w = {"k": wrap, "id": "W", "c": [g, L("item")]}
+                                if wrap in ("AtLeast", "AtMost"):
+                                    w["v"] = 1
+                                    if wrap == "AtLeast":
+                                        w["s"] = None
+                            yield {"k": "Stingy", "id": "conf", "c": [w, L("other")]}
 
 
 def rulebase_case(r, kinds=("Any",), falsify=(0, 1, 2)):
